@@ -25,6 +25,7 @@ import (
 	"anndbverif/lib/shard"
 	"anndbverif/sim"
 	"anndbverif/vrt/fakes"
+	"anndbverif/vrt/serverenv"
 	"anndbverif/world"
 
 	pb "github.com/marekgalovic/anndb/protobuf"
@@ -81,7 +82,7 @@ func scaledVec() []float32 {
 }
 
 func vectors() map[string][]float32 {
-	return map[string][]float32{"empty": {}, "ok": {1, 2}, "too-long": {1, 2, 3}, "nan-inf": {nan, inf}, "huge": {3e38, -3e38}, "scaled-copy-of-stored": scaledVec()}
+	return map[string][]float32{"empty": {}, "ok": {1, 2}, "too-long": {1, 2, 3}, "nan-inf": {nan, inf}, "huge": {3e38, -3e38}, "scaled-copy-of-stored": scaledVec(), "zero": {0, 0}}
 }
 
 func alphabet() []request {
@@ -228,6 +229,28 @@ func alphabet() []request {
 			return n.Data.PartitionBatchRemove(bg, req)
 		})
 	}
+	for _, op := range []string{"Insert", "Update", "Remove"} {
+		op := op
+		// the forwarded batch RPCs called directly with nothing in them
+		add("PartitionBatch"+op+"(D,existing partition,[])", func(n *fakes.Node, c *ctxT) (interface{}, error) {
+			req := &pb.PartitionBatchRequest{DatasetId: c.D, PartitionId: c.P}
+			switch op {
+			case "Insert":
+				return n.Data.PartitionBatchInsert(bg, req)
+			case "Update":
+				return n.Data.PartitionBatchUpdate(bg, req)
+			}
+			return n.Data.PartitionBatchRemove(bg, req)
+		})
+	}
+	// a request below the transport's 4 MB message limit whose log entry is a single value of 2.4 MB
+	add("Insert(D,new id,metadata of 40 x 60000 bytes = 2.4 MB)", func(n *fakes.Node, c *ctxT) (interface{}, error) {
+		m := map[string]string{}
+		for i := 0; i < 40; i++ {
+			m[fmt.Sprintf("key%02d", i)] = strings.Repeat("v", 60000)
+		}
+		return n.Data.Insert(bg, &pb.InsertRequest{DatasetId: c.D, Id: world.ID(0x83, 0x84).Bytes(), Value: []float32{1, 2}, Metadata: m})
+	})
 	for _, lvl := range []int32{-1, -2, math.MinInt32, 64, math.MaxInt32} {
 		lvl := lvl
 		// the level of an item is drawn by the proposing node; on the direct partition RPC it is whatever the client sends
@@ -281,6 +304,14 @@ type caseT struct {
 
 // runCase executes one sequence on a fresh server. Returns violation key/desc.
 func runCase(rs []request, c caseT) (string, string) {
+	// simulated disks have small tables (a write batch may be 15% of one); a sequence with a multi-megabyte request gets
+	// room for it, so that only the limits the server itself configures apply
+	serverenv.TableSize = 1 << 20
+	for _, ri := range c.Seq {
+		if strings.Contains(rs[ri].Name, "2.4 MB") {
+			serverenv.TableSize = 32 << 20
+		}
+	}
 	w := sim.NewServers()
 	defer w.Close()
 	w.Add(1, nil)
@@ -337,7 +368,10 @@ func runCase(rs []request, c caseT) (string, string) {
 	}
 	for i, ri := range c.Seq {
 		r := rs[ri]
-		done, _ := call(r.Name, func() (interface{}, error) { return r.Do(node(), cx) })
+		done, rerr := call(r.Name, func() (interface{}, error) { return r.Do(node(), cx) })
+		if os.Getenv("VERIF_DEBUG") != "" {
+			fmt.Fprintf(os.Stderr, "request %s: returned=%v err=%v\n", r.Name, done, rerr)
+		}
 		if len(w.Violations) > 0 {
 			v := w.Violations[0]
 			where := "handler"
